@@ -565,32 +565,37 @@ def call_lua_sandbox(
                 return ""
             name_or_table: Union[str, "_LuaTable", dict] = args[0]
             new_args: Union[dict, list]
+            def flatten(table: Any) -> list[str]:
+                # numbered entries in numeric order (1, 2, ..., 10; not
+                # "1" < "10" < "2"), then the named ones as name=value
+                return [
+                    str(v) if isinstance(k, (int, float)) else f"{k}={v}"
+                    for k, v in sorted(
+                        table.items(),
+                        key=lambda x: (
+                            (0, x[0], "")
+                            if isinstance(x[0], (int, float))
+                            else (1, 0, str(x[0]))
+                        ),
+                    )
+                ]
+
+            new_args = []
             if not isinstance(name_or_table, str):
                 # name is _LuaTable
                 new_args1: Union["_LuaTable", dict, str] = name_or_table["args"]
-                if isinstance(new_args1, str):
-                    new_args = {1: new_args1}
-                else:
-                    new_args = dict(new_args1)
+                if isinstance(new_args1, (int, float, str)):
+                    new_args.append(str(new_args1))
+                elif new_args1 is not None:
+                    new_args.extend(flatten(new_args1))
                 name = str(name_or_table["name"]) or ""
             else:
-                new_args = []
                 name = name_or_table
                 for arg in args[1:]:
                     if isinstance(arg, (int, float, str)):
                         new_args.append(str(arg))
                     elif isinstance(arg, dict) or lua_type(arg) == "table":
-                        # numbered entries in numeric order (1, 2, ..., 10;
-                        # not "1" < "10" < "2"), then the named ones
-                        for k, v in sorted(
-                            arg.items(),
-                            key=lambda x: (
-                                (0, x[0], "")
-                                if isinstance(x[0], (int, float))
-                                else (1, 0, str(x[0]))
-                            ),
-                        ):
-                            new_args.append(str(v))
+                        new_args.extend(flatten(arg))
             name = ctx._canonicalize_parserfn_name(name)
             if name not in PARSER_FUNCTIONS:
                 ctx.debug(
